@@ -869,6 +869,10 @@ class ProgGen:
         fid = self.nid()
         params = [self.wire(t) for t in ins]
         declare = (r.random() < 0.4 and not poly) if declare is None else declare
+        if name != "main" and r.random() < 0.3:
+            # names are free text: non-ASCII, empty, with spaces, or the same as another function's
+            name = r.choice(["ƒ-é ψ", "", "dup", "dup", "a b", "x.y::z", name + "✓"])
+            self.feat("odd-function-name")
         f = {"name": name, "id": fid, "ins": ins, "tparams": tparams, "outs": None, "parent": parent,
              "params": [p["id"] for p in params]}
         if r.random() < 0.1:
